@@ -232,7 +232,10 @@ impl Scenario for C14Des {
                     },
                     (Some(Ev::Err(e)), Target::CollectFuture) => matches!(&r, Ok(Err(x)) if x == e),
                     (Some(Ev::Err(e)), _) => {
-                      matches!(&r, Ok(Err(x)) if x == e) || (!items.is_empty() && matches!(r, Err(ObservableError::MultipleValues)))
+                      // one item and then a failure is not "more than one value":
+                      // the source's error is the outcome; with >= 2 items either
+                      // answer is defensible
+                      matches!(&r, Ok(Err(x)) if x == e) || (items.len() >= 2 && matches!(r, Err(ObservableError::MultipleValues)))
                     }
                     _ => false,
                   };
@@ -507,7 +510,7 @@ impl Scenario for C14Threads {
         }
       };
       let ok = res == expected
-        || (case.waiter == TWaiter::BlockOnFuture && case.terminal == 2 && case.items > 0 && res == vec!["MultipleValues".to_string()]);
+        || (case.waiter == TWaiter::BlockOnFuture && case.terminal == 2 && case.items >= 2 && res == vec!["MultipleValues".to_string()]);
       if !ok {
         violation = Some(Violation { rule: "c14.wrong-outcome".into(), site: site.clone(), detail: format!("waiter observed {:?}, expected {:?}", res, expected) });
       }
